@@ -2,7 +2,9 @@
     and non-vacuity, with the executable reference implementations (LibcNum.strtod_ref,
     LibcPrint.fmt_d / fmt_g15 / fmt_g17 / sscanf_lg).
 
-    * what is PROVED for the reference implementations (clause S);
+    * what is PROVED for the reference implementations here: clause S (clause N2 is in
+      RoundTripRef.v, clause V in RoundTripRefValid.v; joint satisfiability of all clauses, by an
+      artificial library, in RoundTripModel.v);
     * TESTS (labelled [test_...]): every clause of the contract written as a boolean check and
       evaluated by [vm_compute] on a table of boundary doubles / ints.  These are tests, not
       proofs: they validate the contract on samples; the correspondence check compares the
